@@ -8,6 +8,7 @@ package zzverif
 
 import (
 	"reflect"
+	"strings"
 
 	"github.com/verily-src/fhirpath-go/fhirpath/internal/funcs"
 )
@@ -157,3 +158,45 @@ func collOfVals(vs ...Val) any {
 	}
 	return collOf(false, items)
 }
+
+// (shared by C01 and C04)
+var c01KindLits = func() map[string][]string {
+	m := map[string][]string{}
+	for _, v := range poolAll {
+		if l, ok := v.lit(); ok && v.isSystem() {
+			k := v.K
+			if k == "Integer" || k == "Decimal" {
+				m["num"] = append(m["num"], l)
+			}
+			m[k] = append(m[k], l)
+		}
+	}
+	m["Integer"] = append(m["Integer"], "(0 - 2147483647 - 1)", "(0 - 1)", "(0 - 2147483647)")
+	m["num"] = append(m["num"], "(0 - 2147483647 - 1)", "(0 - 1)", "(0 - 1.5)", "(1/3)", "0.0000000001")
+	return m
+}()
+
+// c01KindTerms: boundary literals of the kind of a well-typed example term (nil when
+// the example is not a literal).
+func c01KindTerms(example string) []string {
+	switch {
+	case example == "":
+		return nil
+	case example[0] == '\'':
+		return c01KindLits["String"]
+	case example[0] == '@' && strings.HasPrefix(example, "@T"):
+		return c01KindLits["Time"]
+	case example[0] == '@' && strings.Contains(example, "T"):
+		return c01KindLits["DateTime"]
+	case example[0] == '@':
+		return c01KindLits["Date"]
+	case example[0] >= '0' && example[0] <= '9' && strings.Contains(example, "'"):
+		return c01KindLits["Quantity"]
+	case example[0] >= '0' && example[0] <= '9' && strings.Contains(example, "."):
+		return c01KindLits["num"]
+	case example[0] >= '0' && example[0] <= '9':
+		return c01KindLits["Integer"]
+	}
+	return nil
+}
+
